@@ -169,8 +169,13 @@ def run(ctx):
         ctx.flush()
     for i in range(n_random):
         n = gen.log_int(rng, 2, maxlen_r)
-        kind = rng.choice(['plateau', 'noise', 'int', 'dyadic', 'sine', 'offset-plateau'])
-        if kind == 'plateau':
+        kind = rng.choice(['plateau', 'noise', 'int', 'dyadic', 'sine', 'offset-plateau', 'tiny-scale', 'near-tie'])
+        if kind == 'tiny-scale':
+            # steps far below any absolute tolerance are still steps (exact power-of-two scaling of a dyadic record)
+            v = gen.dyadic_record(rng, n) * 2.0 ** -rng.choice([30, 40, 60])
+        elif kind == 'near-tie':
+            v = gen.int_record(rng, n) + np.array([rng.choice([0, 1, -1, 2]) * 2.0 ** -rng.choice([28, 34, 40]) for _ in range(n)])
+        elif kind == 'plateau':
             v = gen.plateau_record(rng, n)
         elif kind == 'offset-plateau':
             v = gen.plateau_record(rng, n, levels=(3, 4, 5, 7), p_repeat=0.6)
